@@ -30,6 +30,13 @@ CLAIMED = {
         "value AND bytes pulled for every generated (file, window, source, cache).",
    technique="Lean 4 proof (simulation between two reader state machines, induction over reader programs) + differential correspondence incl. bytes pulled",
    design="§5 C03"),
+ "C04": dict(
+   text="Theorems (Props/C04.lean): every file of the v0.1 reference encoder (written from docs/specs/v0.1.md) decodes to exactly its content whatever its 16-bit frame-count field says "
+        "(readV01_enc: the count comes from the payload size, so > 65 535 frames are decoded in full); the decoded pose is written as v0.2 and reads back to the same content (legacy_rewrite_v01); "
+        "a header whose version is not ±0 / within the 3-decimal band of 0.1 / 0.2 makes the body decoder the failing program for either reader (other_version_refused); v0.0 ignores windows; "
+        "v0.1 windows are slices; stream = bytes for every version. Partial: the v0.0 decoder is modelled and compared with the implementation on reference-encoded files, but no reference-decode theorem is proved for it.",
+   technique="Lean 4 proof (v0.1 codec, version dispatch) + differential correspondence on reference-encoded v0.0/v0.1 files",
+   design="§5 C04"),
  "C07": dict(
    text="Theorems (Props/C07.lean): no proper prefix of a written file is accepted by a full read (truncated_rejected, from extension/consumption of blind skip-free reader programs), "
         "appended bytes do not change the result (trailing_ignored). The windowed-stream clause (raises or equals the intact file's window) is covered by the correspondence and the oracle on the "
